@@ -441,7 +441,7 @@ MORE = {
            'undo path itself: one undo, two undos in one transaction in both '
            'orders, for every class kind and reference set.',
     'C11': 'A new object reachable only through an existing object whose '
-           'store fails; modifications refused by the transaction machinery '
+           'store fails; modifications and add() refused by the transaction machinery '
            '(explicit mode outside a transaction, a failed transaction not '
            'yet aborted) for two connections sharing one manager, independent '
            'and as primary / secondary of a multi-database with close of the '
